@@ -32,8 +32,8 @@ PAR = 8
 BOUND = 25.0
 
 ACTS = ["idle", "blocked", "busy", "sleep", "swallow_kbi", "sigint_ignored", "daemon_threads", "flood", "big_transfer", "endmarker_raises",
-        "callback_service", "inbound_flood", "thread_exhaustion", "unread_backlog"]
-GEVENT_ACTS = ["idle", "blocked", "gevent_sleep", "gevent_busy", "gevent_timesleep"]
+        "callback_service", "inbound_flood", "thread_exhaustion", "unread_backlog", "two_senders_full_pipe"]
+GEVENT_ACTS = ["idle", "blocked", "gevent_sleep", "gevent_busy", "gevent_timesleep", "two_senders_full_pipe"]
 REMOVALS = ["sigkill", "sigterm", "os_exit", "normal_exit", "close_connection", "during_bootstrap", "exit_after_fork"]
 TOPOS = ["popen", "python", "via", "socket"] + [t for t in ("py3.10", "py3.11", "py3.13") if __import__("glob").glob(f"/root/.pyenv/versions/{t[2:]}.*/bin/python")]
 
@@ -301,15 +301,14 @@ def run_shard(spec):
         cases[1].update(gen_fixed("popen", "main_thread_only", "swallow_kbi", "os_exit"))
         cases[2].update(gen_fixed("popen", "thread", "swallow_kbi", "sigkill", stderr="pipe_reader_gone"))
         cases[4].update(gen_fixed("popen", "thread", "callback_service", "sigkill"))
+    extra_fixed = []
     if spec["shard"] == 2:
-        cases[0].update(gen_fixed("popen", "thread", "idle", "exit_after_fork"))
-        cases[1].update(gen_fixed("python", "main_thread_only", "sleep", "exit_after_fork"))
+        extra_fixed += [gen_fixed("popen", "gevent", "two_senders_full_pipe", "sigkill"), gen_fixed("popen", "thread", "two_senders_full_pipe", "sigkill"),
+                        gen_fixed("popen", "thread", "idle", "exit_after_fork"), gen_fixed("python", "main_thread_only", "sleep", "exit_after_fork")]
     if spec["shard"] == 1:
-        cases[0].update(gen_fixed("popen", "thread", "unread_backlog", "sigkill"))
-        cases[1].update(gen_fixed("popen", "main_thread_only", "unread_backlog", "normal_exit"))
+        extra_fixed += [gen_fixed("popen", "thread", "unread_backlog", "sigkill"), gen_fixed("popen", "main_thread_only", "unread_backlog", "normal_exit")]
         if "py3.10" in TOPOS:
-            cases[2].update(gen_fixed("py3.10", "thread", "idle", "sigkill"))
-            cases[3].update(gen_fixed("py3.10", "main_thread_only", "sleep", "os_exit"))
+            extra_fixed += [gen_fixed("py3.10", "thread", "idle", "sigkill"), gen_fixed("py3.10", "main_thread_only", "sleep", "os_exit")]
     if spec["shard"] == 3:
         cases[0].update(gen_fixed("popen", "thread", "inbound_flood", "sigkill"))
         cases[1].update(gen_fixed("python", "main_thread_only", "inbound_flood", "sigkill"))
@@ -330,6 +329,7 @@ def run_shard(spec):
     if spec["shard"] == 1:
         cases[0].update(gen_fixed("python", "thread", "busy", "sigkill"))
         cases[1].update(gen_fixed("popen", "thread", "blocked", "close_connection"))
+    cases += extra_fixed
     out: list = []
     sem = threading.Semaphore(spec["conc"])
     ths = []
